@@ -5,7 +5,8 @@ import random
 from core import vloop
 from e2e import common, run_e2e, runner, scenario, upstream
 
-EXPECTED = []
+EXPECTED = ["C02_repo_result_iff", "C02_exit_iff", "C02_failed_no_publish", "C02_repos_independent",
+            "C02_download_keeps_names", "C02_optional_never_fails"]
 LEVEL = "proof"
 RULE = ("history = a fault-free run against upstream V1 (published state) followed by a run against V2 = evolve(V1) "
         "(packages added/removed/upgraded, by-hash/compressions/flavours changed) with a fault-plan class per repository: "
@@ -100,6 +101,7 @@ def run_one(chk, sseed, cls):
         before = {r["url"]: views(w, r["url"]) for r in new}
         res2 = run_e2e.execute(w.sb, new, stores2, plans, vloop.RandomChooser(rng.randrange(1 << 30)))
         replay = {"scenario_seed": sseed, "class": cls, "classes": classes, "plans": plans, "lines": w.lines + extra}
+        common.correspondence(chk, res2, replay, publish=False)
         exp_fail = bool(failing)
         if (res2.exit != 0) != exp_fail:
             sig = "exit-iff:" + ("should-fail" if exp_fail else "should-succeed") + ":" + cls
